@@ -16,10 +16,12 @@ for mp in sorted(glob.glob(os.path.join(VERIF, "seeded", "*", "meta.json"))):
             obs = sorted({(o.get("obligation") or "")[:70] for o in c.get("violations", [])})
             nat = any(o.get("replayed_natively") for o in c.get("violations", []))
             verdicts.append(f"**caught** by `./check {k.split(':')[0]}` ({k.split(':')[1]}): `{obs[0] if obs else ''}`" + (" - replayed natively" if nat else " - no-failing-input-found"))
+        elif c.get("path_artefacts_dropped") and not c.get("violations"):
+            verdicts.append(f"missed by `./check {k.split(':')[0]}` ({k.split(':')[1]}) - the run on the scratch path reported only path-dependent artefacts of six E2 harnesses, which fail there on the unmodified tree too (§0.6)")
         elif c.get("exit_code") == 0:
             verdicts.append(f"missed by `./check {k.split(':')[0]}` ({k.split(':')[1]})")
         else:
-            verdicts.append(f"undecided ({k}, exit {c.get('exit_code')})")
+            verdicts.append(f"missed: the check answered undecided (`./check {k.split(':')[0]}`, exit {c.get('exit_code')})")
     rows.append(f"| {sid} | {m.get('property')} | {what} | {conf} / {integ} | {'; '.join(verdicts) or 'not run yet'} |")
 table = "| Seed | Property | Change (needs ... to manifest) | Confirmed by me: units+demo / integration | Verdict of the registered check |\n|---|---|---|---|---|\n" + "\n".join(rows)
 p = os.path.join(VERIF, "DESIGN.md")
